@@ -29,5 +29,7 @@ def _w(rank):
 def main():
     ctx = mp.get_context("spawn")
     with ctx.Pool(16) as pool: res = pool.map(_w, range(16))
+    from rtc import core
+    core.write_warm_stamp()
     print("warm:", res[:3], "...")
     return 0
